@@ -38,6 +38,8 @@ pub struct ClientSim {
     pub srv_closed: bool,
     /// an injected read error (the server answers those with a 500)
     pub recv_err_injected: bool,
+    /// the last read of this client ended with end-of-stream
+    pub saw_eof: bool,
     /// the payload limit in force when this client was accepted (None = not accepted yet)
     pub limit: Option<usize>,
 }
@@ -268,6 +270,7 @@ impl World {
             write_failed: false,
             srv_closed: false,
             recv_err_injected: false,
+            saw_eof: false,
             limit: None,
         });
         self.backlog.push_back(i);
@@ -303,12 +306,20 @@ impl World {
                             got.extend_from_slice(&buf[..n]);
                             total += n;
                         }
-                        Err(_) => break,
+                        Err(e) => {
+                            // a peer that closed with OUR unread input in its socket shows as ECONNRESET, not as end of
+                            // stream: either way this client has been disconnected
+                            if e.kind() != std::io::ErrorKind::WouldBlock && e.kind() != std::io::ErrorKind::Interrupted {
+                                eof = true;
+                            }
+                            break;
+                        }
                     }
                 }
             }
         }
         self.clients[i].received.extend_from_slice(&got);
+        self.clients[i].saw_eof = eof;
         self.clients[i].avail = 0;
         self.note(rec, &format!("client {} read {}{}", i, total, if eof { " eof" } else { "" }));
         total
